@@ -219,9 +219,12 @@ const (
 
 // ZnError - an error outcome predicted by the reference. Class is coarse on purpose.
 type ZnError struct {
-	Class string // "runtime" | "exception"
-	What  string // short tag: div-zero, type, index, key, name, const, redeclare, arity, member, ...
-	Exc   Value  // raised value (*ExcV or *ObjV) for catchable errors
+	Depth     int    // number of user-level calls active when the error was raised
+	InHandler bool   // raised while a handler was running
+	Class     string // "runtime" | "exception"
+	What      string // short tag: div-zero, type, index, key, name, const, redeclare, arity, member, ...
+	Exc       Value  // raised value (*ExcV or *ObjV) for catchable errors
+	stamped   bool
 }
 
 func (e *ZnError) Error() string { return e.Class + ":" + e.What }
@@ -263,18 +266,19 @@ type modEnv struct {
 
 // Interp - reference interpreter state for one program run
 type Interp struct {
-	Out        []string // display trace, one entry per 显示 call
-	Steps      int64    // statements executed
-	MaxSteps   int64
-	Unspec     []string // reasons why (part of) the outcome is not determined by the statement
-	Depth      int
-	MaxDepth   int
-	nextObj    int
-	Modules    map[string]*Program // importable modules (source known to the generator)
-	modCache   map[string]*modEnv
-	modLoading map[string]bool
-	ModOrder   []string // order in which module bodies ran
-	Inputs     map[string]Value
+	Out          []string // display trace, one entry per 显示 call
+	Steps        int64    // statements executed
+	MaxSteps     int64
+	Unspec       []string // reasons why (part of) the outcome is not determined by the statement
+	Depth        int
+	MaxDepth     int
+	nextObj      int
+	handlerDepth int
+	Modules      map[string]*Program // importable modules (source known to the generator)
+	modCache     map[string]*modEnv
+	modLoading   map[string]bool
+	ModOrder     []string // order in which module bodies ran
+	Inputs       map[string]Value
 	// LoopVarAlias - when true the loop variable of 遍历 aliases the element (documented
 	// behaviour is a copy; kept switchable for triage)
 	ExcClass *ClassV
@@ -290,7 +294,7 @@ func NewInterp() *Interp {
 func (in *Interp) unspec(why string) { in.Unspec = append(in.Unspec, why) }
 
 func rterr(what string) *ctl {
-	return &ctl{kind: ctlRaise, err: &ZnError{Class: "runtime", What: what}}
+	return &ctl{kind: ctlRaise, err: &ZnError{Class: "runtime", What: what, Depth: -1}}
 }
 
 // Result - outcome of a reference run
@@ -428,7 +432,9 @@ func (in *Interp) handle(c *ctl, catches []Catch, sc *scope, m *modEnv, this Val
 			}
 			fr := &frame{mod: m, this: exc}
 			hs := &scope{vars: map[string]*binding{}, parent: sc}
+			in.handlerDepth++
 			_, _, hc := in.block(catches[i].Body, hs, fr, false)
+			in.handlerDepth--
 			if hc != nil {
 				if hc.kind == ctlReturn {
 					return hc.val, true, nil
@@ -482,6 +488,11 @@ func (in *Interp) block(body []Stmt, sc *scope, fr *frame, skipDefs bool) (Value
 		in.tick()
 		v, isExpr, c := in.stmt(s, sc, fr)
 		if c != nil {
+			if c.kind == ctlRaise && c.err != nil && !c.err.stamped {
+				c.err.stamped = true
+				c.err.Depth = in.Depth
+				c.err.InHandler = in.handlerDepth > 0
+			}
 			return nil, false, c
 		}
 		last, known = v, isExpr
